@@ -164,7 +164,7 @@ impl Prop for C01 {
     }
     fn fuzz_plan(&self, tier: Tier) -> Vec<(&'static str, u64)> {
         if tier == Tier::Thorough {
-            vec![("prop", 60_000)]
+            vec![("prop", 6_000)]
         } else {
             vec![]
         }
